@@ -25,7 +25,7 @@ func init() {
 		Fn: checkC15, Level: "exploration", Serial: false,
 		Rule: "full products of small boundary alphabets per encoder, each compared byte-for-byte with an independent implementation (from-scratch keccak-f[1600] and ABI head/tail encoder) driven by the struct layouts, constants and abi.encode argument lists parsed out of BlobstreamO.sol / Constants.sol / TokenBridge.sol on every run: validator sets of 0..4 (quick) / 0..5 full, 6..8 reduced, 100 once (thorough) members over addresses {00..,ff..,mixed} x powers {0,1,2^63-1,2^64-1}; checkpoints over threshold/timestamp {0,1,2^64-1} x 3 hashes; attestation digests over value lengths {0,1,31,32,33,64,65} x timestamps/powers {0,1,2^64-1}; deposit/withdrawal query ids {0,1,2^64-1}; withdrawal values over recipients of 0/19/20/21/40 bytes x 3 senders x amounts {1,1e6,2^63-1}; power threshold vs floor(2*total/3); signatures made like extend_vote accepted by a transcription of _verifySig and by EVMAddressFromSignatures; non-trivial = input with at least one non-zero field; distinct = distinct input tuples",
 		Assume:      []string{"no solc/EVM in the image: agreement is with an independent implementation of the ABI specification applied to the parsed contract text, not with executed bytecode", "ecrecover reuses go-ethereum's secp256k1", "the deposit query id has no expression in the contracts; it is taken as the withdrawal expression with the boolean flipped"},
-		QuickBudget: 4 * time.Minute, ThoroughBudget: 15 * time.Minute,
+		QuickBudget: 10 * time.Minute, ThoroughBudget: 15 * time.Minute,
 	})
 }
 
